@@ -1,9 +1,12 @@
-import A2Verif.Lemmas.FsFatAttr
+import A2Verif.Lemmas.FsFatPutStep
+import A2Verif.Lemmas.FsFatFormat
 /-!
 # A concrete state that satisfies the invariant (non-vacuity), built by the model itself
 
 A 24-sector FAT12 volume (1 boot sector, 2 FATs of 1 sector, 1 root sector = 16 entries, 20 data clusters) is formatted
-by the model's `format` and receives a two-cluster file `A.B` by the model's `put`.  All checks run in the kernel.
+by the model's `format` and receives a two-cluster file `A.B` by the model's `put`.  That both states satisfy the invariant
+follows from the theorems about `format` and `put` (their hypotheses are checked on the small terms `exBoot`, `exFile`);
+`rootOk_of_check`/`tailZero_of_check`/`nameGood_of_check` are the checkable forms for states given otherwise.
 -/
 namespace A2Verif.FsFat
 open A2Verif A2Verif.Fs.Fat A2Verif.Read.Fat A2Verif.Read.FatT
@@ -37,7 +40,8 @@ theorem bytesOk_of_all {f : Array Nat} (h : f.toList.all (fun x => decide (x < 2
 
 def nameGoodB (e : Bytes) : Bool :=
   match fileNameToSplit e with
-  | some (nm, ty) => decide (entName e = (if ty = [] then nm else nm ++ [46] ++ ty)) && !nm.contains 46 && !ty.contains 46
+  | some (nm, ty) => decide (entName e = (if ty = [] then nm else nm ++ [46] ++ ty)) && !nm.contains 46 && !ty.contains 46 &&
+      (decide ((e.getD 11 0 / 16) % 2 ≠ 1) || decide (entName e ≠ []))
   | none => false
 
 theorem nameGood_of_check {e : Bytes} (h : nameGoodB e = true) : NameGood e := by
@@ -48,7 +52,8 @@ theorem nameGood_of_check {e : Bytes} (h : nameGoodB e = true) : NameGood e := b
     obtain ⟨nm, ty⟩ := nt
     rw [hn] at h
     simp only [Bool.and_eq_true, decide_eq_true_eq, Bool.not_eq_true'] at h
-    exact ⟨nm, ty, hn, h.1.1, by simpa using h.1.2, by simpa using h.2⟩
+    simp only [Bool.or_eq_true, decide_eq_true_eq] at h
+    exact ⟨nm, ty, hn, h.1.1.1, by simpa using h.1.1.2, by simpa using h.1.2, fun hd => h.2.resolve_left (fun c => c hd)⟩
 
 def rootOkB (d : Disk) : Bool :=
   (dirOfBytes (rootBuf d)).all (fun e =>
@@ -94,67 +99,57 @@ theorem tailZero_of_check : ∀ {E : List Bytes}, tailZeroB E = true → TailZer
         rw [List.getElem?_cons_succ] at h1
         exact ih h.2 i j e1 e2 (by omega) h1 h2 hz
 
-def exFat : Array Nat := exDisk.fat.getD #[]
+/-! ## the example states satisfy the invariant: by the theorems about `format` and `put`, not by evaluation -/
 
-theorem exDisk_bpb : exDisk.bpb = Bpb.ofBoot exBoot := by decide +kernel
-theorem exDisk_misc : exDisk.typ = 12 ∧ exDisk.labelFiles = false ∧ exDisk.raw.unitLen = 512 ∧ exDisk.raw.units.size = 24 ∧
-    exDisk.raw.units[0]? = some exBoot ∧ exDisk.raw.units.toList.all (fun u => decide (u.length = 512)) = true := by decide +kernel
+theorem exBlank_pre : FmtPre exBlank exBoot := fmtPre_blank (by decide +kernel) (by decide +kernel)
 
-theorem exBpb_vals : (Bpb.ofBoot exBoot).bps = 512 ∧ (Bpb.ofBoot exBoot).spc = 1 ∧ (Bpb.ofBoot exBoot).nfat = 2 ∧
-    (Bpb.ofBoot exBoot).fat16 = 1 ∧ (Bpb.ofBoot exBoot).spt = 8 ∧ (Bpb.ofBoot exBoot).heads = 1 ∧ (Bpb.ofBoot exBoot).fatType = 12 ∧
-    (Bpb.ofBoot exBoot).rsvd = 1 ∧ (Bpb.ofBoot exBoot).firstDataSec = 4 ∧ (Bpb.ofBoot exBoot).totSec = 24 ∧
-    (Bpb.ofBoot exBoot).fatSecs = 1 := by decide +kernel
+theorem exStamp_ok : StampOk exStamp := ⟨rfl, rfl⟩
 
-theorem exDisk_geo : Geo exDisk := by
-  obtain ⟨t1, t2, t3, t4, t5, t6⟩ := exDisk_misc
-  obtain ⟨b1, b2, b3, b4, b5, b6, b7, b8, b9, b10, b11⟩ := exBpb_vals
-  have hb := exDisk_bpb
-  refine { boot := ⟨exBoot, t5, hb.symm⟩, ulen := t3, usz := ?_, bps := by rw [hb, b1], spc := by rw [hb, b2]; decide,
-           nfat := by rw [hb, b3]; decide, fat16 := by rw [hb, b4]; decide, spt := by rw [hb, b5]; decide,
-           heads := by rw [hb, b6]; decide, typ := t1, ftyp := by rw [hb, b7], rsvd := by rw [hb, b8]; decide,
-           fits := by rw [hb, b9, b10, t4]; decide, chs := ?_ }
-  · intro i h
-    have hm : exDisk.raw.units[i] ∈ exDisk.raw.units.toList := by simp
-    have := List.all_eq_true.mp t6 _ hm
-    simpa using this
-  · intro s hs
-    rw [hb, b10] at hs
-    rw [hb, b5, t4]
-    omega
+/-- the formatted example volume satisfies the invariant (`format_establishes_inv`) -/
+theorem exDisk0_inv : Inv exDisk0 := by
+  obtain ⟨d', f, hrun, hlf, hb, g, c, hfree, hE, ht⟩ := format_run (vol := [86]) (now := exStamp) exBlank_pre (Or.inl (by decide)) exStamp_ok
+  have : exDisk0 = d' := by unfold exDisk0; rw [hrun]
+  rw [this]
+  exact (inv_of_empty hlf g c hfree hE ht).1
 
-theorem exDisk_fat : exDisk.fat = some exFat ∧ exFat.size = 512 ∧ exFat.toList.all (fun x => decide (x < 256)) = true ∧
-    (∀ k, k < 2 → exDisk.raw.units[1 + k]? = some (fatSector exFat 0)) := by decide +kernel
+/-- the formatted example volume lists no file -/
+theorem exDisk0_empty : (volOf exDisk0).files = [] := by
+  obtain ⟨d', f, hrun, hlf, hb, g, c, hfree, hE, ht⟩ := format_run (vol := [86]) (now := exStamp) exBlank_pre (Or.inl (by decide)) exStamp_ok
+  have : exDisk0 = d' := by unfold exDisk0; rw [hrun]
+  rw [this]
+  exact (inv_of_empty hlf g c hfree hE ht).2.1
 
-theorem exDisk_coh : Coh exDisk exFat := by
-  obtain ⟨f1, f2, f3, f4⟩ := exDisk_fat
-  obtain ⟨b1, b2, b3, b4, b5, b6, b7, b8, b9, b10, b11⟩ := exBpb_vals
-  have hb := exDisk_bpb
-  refine { isOpen := f1, size := by rw [hb, b11, f2], bytes := bytesOk_of_all f3, copies := ?_ }
-  intro k j hk hj
-  rw [hb, b3] at hk
-  rw [hb, b11] at hj
-  have hj0 : j = 0 := by omega
-  subst hj0
-  rw [hb, b8, b11]
-  have := f4 k hk
-  simpa using this
+theorem exDisk0_bpb : exDisk0.bpb = Bpb.ofBoot exBoot := by
+  have h := format_bpb (d := exBlank) (boot := exBoot) (vol := [86]) (now := exStamp) exBlank_pre (Or.inl (by decide)) exStamp_ok
+  have e : exBlank.bpb = Bpb.ofBoot exBoot := rfl
+  rw [e] at h
+  unfold exDisk0
+  exact h
 
-theorem exDisk_read : ∃ v, readT exDisk.raw = .ok v ∧ v.wfB = true ∧ v.noLeak = true := by
-  have hok : (match readT exDisk.raw with | .ok v => v.wfB && v.noLeak | .error _ => false) = true := by decide +kernel
-  cases h : readT exDisk.raw with
-  | error e => rw [h] at hok; cases hok
-  | ok v =>
-    rw [h] at hok
-    simp only [Bool.and_eq_true] at hok
-    exact ⟨v, rfl, hok.1, hok.2⟩
+theorem prod_eta {α β : Type} (p : α × β) : p = (p.1, p.2) := rfl
 
-/-- the example state satisfies the invariant -/
-theorem exDisk_inv : Inv exDisk where
-  lf := exDisk_misc.2.1
-  geo := exDisk_geo
-  coh := ⟨exFat, exDisk_coh⟩
-  root := rootOk_of_check (by decide +kernel)
-  tail := tailZero_of_check (by decide +kernel)
-  read := exDisk_read
+theorem exFile_arg : RootArg exFile.fullPath :=
+  { ne := by decide, noSlash := by decide, noStar := by decide, noQ := by decide, len := by decide }
+
+theorem exFile_putArg : PutArg exFile := by
+  have hend : exFile.end = 2 := by decide +kernel
+  refine { noHole := ?_, fits := ?_, eofFits := ?_ }
+  · intro k hk
+    rw [hend] at hk
+    have : k = 0 ∨ k = 1 := by omega
+    rcases this with h | h <;> subst h <;> decide +kernel
+  · intro k hk
+    rw [hend] at hk
+    have : k = 0 ∨ k = 1 := by omega
+    rcases this with h | h <;> subst h <;> decide +kernel
+  · rw [hend]; decide +kernel
+
+/-- the example state satisfies the invariant: it is the result of a `put` on a formatted volume (`put_step_core`) -/
+theorem exDisk_inv : Inv exDisk := by
+  have h := prod_eta (runFlush (put exFile exStamp) exDisk0)
+  unfold exDisk
+  rcases put_step_core exDisk0_inv exFile_arg exStamp_ok exFile_putArg h with ⟨_, _, h2⟩ | ⟨_, inv', _⟩
+  · rw [h2]; exact exDisk0_inv
+  · exact inv'
 
 end A2Verif.FsFat
